@@ -225,10 +225,14 @@ for _name, _kind, _nin in [('dot', 'general', 1), ('inv', 'general', 1), ('solve
 
 
 # ---------------------------------------------------------------- dot / outer with two independent operands, every operand-kind mix
+_PRODUCT_KIND = {}
+
+
 def _gen_product(name):
     def gen(rng, Dmax=6, Pmax=3):
         D = rng.randint(2, max(2, min(Dmax, 5))); P = rng.randint(1, Pmax)
-        kind = rng.choice(['UU', 'Ua', 'aU'])
+        _PRODUCT_KIND[name] = _PRODUCT_KIND.get(name, -1) + 1
+        kind = ['UU', 'Ua', 'aU'][_PRODUCT_KIND[name] % 3]            # every operand-kind mix in turn (scheduled, not drawn)
         if name == 'outer':
             xs, ys = (rng.randint(1, 4),), (rng.randint(1, 4),)
         else:
